@@ -103,7 +103,7 @@ func (s *Set) Floor(rule, what string, min, found int) bool {
 }
 
 func (s *Set) Note(format string, a ...any) { s.Notes = append(s.Notes, fmt.Sprintf(format, a...)) }
-func (s *Set) Count(k string, n int)         { s.Counters[k] += n }
+func (s *Set) Count(k string, n int)        { s.Counters[k] += n }
 
 // Finding is an entry of known_findings.json.
 type Finding struct {
